@@ -754,7 +754,7 @@ func (ex *Exec) applyContract(st *State, con *Contract, sfn *ssa.Function, c *ss
 		pk = ex.g.pkgPath
 	}
 	pre := st.clone()
-	env := &Env{g: g, ex: ex, vars: map[string]Val{}, st: pre, old: pre, pkgPath: pk}
+	env := &Env{g: g, ex: ex, vars: map[string]Val{}, st: pre, old: pre, pkgPath: pk, atCallSite: true}
 	for i, n := range names {
 		env.vars[n] = Val{args[i], GType{T: argTypes[i]}}
 		env.vars[fmt.Sprintf("arg%d", i)] = Val{args[i], GType{T: argTypes[i]}}
